@@ -643,7 +643,10 @@ class World(object):
                     r = c.unified()
                 else:
                     r = ProvDocument(records=c.get_records())
-                if r is not c:
+                if r is not c or (op == "Flattened" and c.is_document() and c.has_bundles()):
+                    # (a document with bundles is documented to get a NEW document: if the library hands
+                    # back the same object it is registered under the new handle as well, so that a later
+                    # change through either name shows in both)
                     self.h[a["out"]] = r
                     if op == "Unified" and r.is_document():
                         for (bh, bid) in srcb:
